@@ -108,6 +108,9 @@ func (cs *gcpClientStream) SendMsg(m interface{}) error {
 			return err
 		}
 		cs.ClientStream = realCS
+		// Forget the error of a previous failed attempt, otherwise RecvMsg
+		// would never reach the stream.
+		cs.initStreamErr = nil
 	}
 	cs.Unlock()
 	cs.cond.Broadcast()
